@@ -1,9 +1,19 @@
 ---------------------------- MODULE OverloadsEmit ----------------------------
 (* Emission wrapper: prints completed cases (overload set + call) as one JSON line each so that   *)
 (* the harness can replay them through the real checker.  EmitOneIn = 1 prints every case; a      *)
-(* larger value prints a uniform random sample of one case in EmitOneIn (the invariants are still *)
-(* checked on every state).                                                                       *)
+(* larger value prints every call of one overload set in EmitOneIn (chosen by a checksum of the   *)
+(* set, so that the calls of a set stay together; the invariants are checked on every state).     *)
 EXTENDS Overloads, Json
 CONSTANT EmitOneIn
-EmitDone == stage = "done" => (RandomElement(1..EmitOneIn) = 1 => PrintT(ToJson(case)))
+
+TypeOrd(t) == CASE t = "int" -> 1 [] t = "bool" -> 2 [] t = "str" -> 3 [] t = "none" -> 4 [] t = "float" -> 5
+                [] t = "object" -> 6 [] t = "any" -> 7 [] OTHER -> 8 + Len(Members(t))
+ParamCode(p) == TypeOrd(p.ty) * 12 + NameOrd(p.name) * 4 + (IF p.kind = "ko" THEN 2 ELSE 0) + (IF p.dflt THEN 1 ELSE 0)
+RECURSIVE ParamsSum(_, _, _)
+ParamsSum(ps, j, h) == IF j > Len(ps) THEN h ELSE ParamsSum(ps, j + 1, (h * 31 + ParamCode(ps[j])) % 10007)
+RECURSIVE SigsSum(_, _, _)
+SigsSum(sigs, i, h) == IF i > Len(sigs) THEN h
+                       ELSE SigsSum(sigs, i + 1, (ParamsSum(sigs[i].params, 1, h * 17 + sigs[i].ret) * 7 + Len(sigs[i].params)) % 10007)
+
+EmitDone == stage = "done" => (SigsSum(case.sigs, 1, 1) % EmitOneIn = 0 => PrintT(ToJson(case)))
 =============================================================================
